@@ -204,6 +204,10 @@ def run(ck, tier):
     _infl.run(ck, F, 'C04')
     from . import mustpass as _mp
     _mp.run(ck, F, 'C04')
+    from . import accum as _acc2
+    _acc2.run2(ck, F, 'C04')
+    from . import siblings as _sib
+    _sib.check(ck, F, 'C04')
     run_agreement(ck, F)
     run_tracker(ck, F)
     run_codec(ck, F)
